@@ -2,7 +2,7 @@
 # seed_matrix.sh: run, for every kept seed, the check of the property it breaks; one line per seed
 cd /verif
 for d in /verif/seeded/*/; do
-  seed=$(basename $d); id=$(echo $seed | cut -d- -f1)
+  seed=$(basename $d); id=$(python3 -c "import json,sys; m=json.load(open('$d/meta.json')); print(m.get('check_with') or '$(basename $d)'.split('-')[0])")
   r=$(tools/try_seed.sh $d/patch.diff $id 2>&1 | tail -1)
   why=$(python3 - <<PY
 import json,glob
